@@ -58,8 +58,16 @@ static void *verif_calloc(size_t n, size_t sz)
 }
 #undef psCalloc
 #define psCalloc(pool, n, sz) verif_calloc((n), (sz))
+/* Free: each of the two blocks may be freed once; VLIVE(p): p is NULL or a block that has not been freed */
+static unsigned char g_freed_names, g_freed_lens;
+static void verif_free(const void *p)
+{
+    if (p == (const void *) g_names) { __CPROVER_assert(!g_freed_names, "allocation is freed at most once (double free)"); g_freed_names = 1; }
+    if (p == (const void *) g_lens) { __CPROVER_assert(!g_freed_lens, "allocation is freed at most once (double free)"); g_freed_lens = 1; }
+}
 #undef psFree
-#define psFree(p, pool) ((void) (p))
+#define psFree(p, pool) verif_free(p)
+#define VLIVE(p) ((p) == NULL || ((const void *) (p) == (const void *) g_names ? !g_freed_names : (const void *) (p) == (const void *) g_lens ? !g_freed_lens : 1))
 
 int32_t matrixSslChooseClientKeys(ssl_t *ssl, sslKeySelectInfo_t *keySelect) { return g_in.choose_rc; }
 
@@ -70,13 +78,14 @@ int32_t matrixSslChooseClientKeys(ssl_t *ssl, sslKeySelectInfo_t *keySelect) { r
     P(success_moves_to_server_hello_done, IMPLIES(RET == PS_SUCCESS, g_ssl.hsState == SSL_HS_SERVER_HELLO_DONE)) \
     P(recorded_ca_name_lies_in_message, IMPLIES(RET == PS_SUCCESS && !(g_in.flags & SSL_FLAGS_PSK_CIPHER) && g_in.k < KS.nCas && KS.caNames != NULL, \
                                                 __CPROVER_same_object(KS.caNames[g_in.k], g_buf) && __CPROVER_POINTER_OFFSET(KS.caNames[g_in.k]) + KS.caNameLens[g_in.k] <= g_in.len)) \
+    P(C19_session_keeps_no_pointer_to_freed_memory, VLIVE(KS.caNames) && VLIVE(KS.caNameLens)) /* matrixSslDeleteSession frees both again */ \
     P(C19_failure_sets_an_alert,        IMPLIES(RET != PS_SUCCESS, RET == MATRIXSSL_ERROR && g_ssl.err != SSL_ALERT_NONE))
 
 int32 parseCertificateRequest(ssl_t *ssl, int32 hsLen, unsigned char **cp, unsigned char *end)
 __CPROVER_requires(ssl == &g_ssl && cp == &g_cur && g_cur == g_buf && end == g_buf + g_in.len && hsLen == (int32) g_in.len && g_in.len <= BUFN)
 POSTS(ENSURES_CLAUSE)
 CANARY_CLAUSE(__CPROVER_return_value != PS_SUCCESS || (g_ssl.sec.keySelect.nCas == 0 && g_ssl.sec.keySelect.peerSigAlgsLen < 32))
-__CPROVER_assigns(g_cur, g_ncalloc, __CPROVER_object_whole(&g_ssl), __CPROVER_object_whole(g_names), __CPROVER_object_whole(g_lens))
+__CPROVER_assigns(g_cur, g_ncalloc, g_freed_names, g_freed_lens, __CPROVER_object_whole(&g_ssl), __CPROVER_object_whole(g_names), __CPROVER_object_whole(g_lens))
 ;
 
 #include "matrixssl/hsDecode.c"
@@ -104,7 +113,7 @@ HARNESS_BEGIN
 #endif
     Memcpy(g_buf, in.buf, BUFN);
     g_cur = g_buf;
-    g_ncalloc = 0;
+    g_ncalloc = 0; g_freed_names = 0; g_freed_lens = 0;
     vr_ret = parseCertificateRequest(&g_ssl, (int32) in.len, &g_cur, g_buf + in.len);
     (void) vr_ret;
     POSTS(NATIVE_CHECK)
